@@ -118,6 +118,62 @@ class RecordDef:
 
 # --------------------------------------------------------------------------- source access
 
+VERIF_CFG = "#[cfg(salsa_rs_salsa_verif)]"
+
+
+def strip_verif_cfg(src):
+    """Remove every statement / item / match arm guarded by `#[cfg(salsa_rs_salsa_verif)]`:
+    the verification hooks are compiled out of the crate under test, so the kernels are read
+    as they exist with the guard off.  The guarded element ends at the first `;` or `,` at
+    nesting depth 0, or at the `}` that closes the first block opened at depth 0 (plus a `;`
+    directly following it)."""
+    out = []
+    i = 0
+    n = len(src)
+    while True:
+        j = src.find(VERIF_CFG, i)
+        if j < 0:
+            out.append(src[i:])
+            break
+        out.append(src[i:j])
+        k = j + len(VERIF_CFG)
+        depth = 0
+        opened_block = False
+        head = src[k:k + 40].lstrip()
+        is_item = head.split("(")[0].split()[0:1] and head.split("(")[0].split()[0] in (
+            "impl", "fn", "pub", "mod", "struct", "enum", "use", "const", "static", "unsafe",
+            "trait", "type", "impl<C>", "impl<C:")
+        is_item = bool(is_item) or head.startswith("impl")
+        while k < n:
+            c = src[k]
+            if c in "([{":
+                if c == "{" and depth == 0:
+                    opened_block = True
+                depth += 1
+            elif c in ")]}":
+                if depth == 0:
+                    break                      # end of the enclosing block: element had no terminator
+                depth -= 1
+                if depth == 0 and c == "}" and opened_block:
+                    k += 1
+                    m = k
+                    while m < n and src[m] in " \t":
+                        m += 1
+                    if m < n and src[m] in ";,":
+                        k = m + 1
+                    break
+            elif depth == 0 and (c == ";" or (c == "," and not is_item)):
+                k += 1
+                break
+            elif c == '"':
+                k += 1
+                while k < n and src[k] != '"':
+                    k += 2 if src[k] == "\\" else 1
+            k += 1
+        i = k
+    return "".join(out)
+
+
 class Sources:
     def __init__(self, repo):
         self.repo = repo
@@ -128,7 +184,7 @@ class Sources:
             path = os.path.join(self.repo, "src", rel)
             try:
                 with open(path, "r", encoding="utf-8") as fh:
-                    src = fh.read()
+                    src = strip_verif_cfg(fh.read())
             except OSError as e:
                 raise Fail("cannot read %s: %s" % (path, e))
             try:
